@@ -639,21 +639,55 @@ func markerPlacement(c *Ctx, rule string) {
 			c.Check(ok, rule, fnName(procSub), "at most one marker, after the last Query/Insert", P.Pos(procSub.Pos()), "path: "+p.String())
 		}
 		c.Floor(rule+"/processSubscription", nMarkerPaths, 1)
-		// the marker is not reachable from the true edge of an error check
-		if markerInstr != nil {
+		// a failed step is never followed by the marker: on every path, once a test "err != nil" of an
+		// error value came out true, no marker is inserted (helpers of the package entered)
+		_ = markerInstr
+		{
+			e := &PPA{
+				MaxVisits:     3,
+				TraceBranches: true,
+				Inline: func(fr *Frame, call ssa.CallInstruction, callee *ssa.Function) bool {
+					return callee.Parent() == procSub
+				},
+				Watch: func(ev *Ev) bool { return isQueueInsert(ev) || ev.Label == "if" },
+			}
+			e.Run(procSub)
+			c.Paths += len(e.Paths)
+			c.Scen++
+			errT := types.Universe.Lookup("error").Type()
 			nChecks := 0
-			for _, b := range procSub.Blocks {
-				ifi, ok := b.Instrs[len(b.Instrs)-1].(*ssa.If)
-				if !ok {
-					continue
+			for i := range e.Paths {
+				p := &e.Paths[i]
+				failed := -1
+				for j := range p.Trace {
+					ev := &p.Trace[j]
+					if ev.Label != "if" || len(ev.Args) == 0 {
+						continue
+					}
+					bo, ok := ev.Args[0].V.(*ssa.BinOp)
+					if !ok || (bo.Op != token.NEQ && bo.Op != token.EQL) {
+						continue
+					}
+					var x ssa.Value
+					switch {
+					case isNilConst(bo.Y):
+						x = bo.X
+					case isNilConst(bo.X):
+						x = bo.Y
+					}
+					if x == nil || !types.Identical(x.Type(), errT) {
+						continue
+					}
+					if ev.Taken == (bo.Op == token.NEQ) && failed < 0 {
+						failed = j
+					}
 				}
-				bo, ok := ifi.Cond.(*ssa.BinOp)
-				if !ok || bo.Op != token.NEQ || !isNilConst(bo.Y) || !types.Identical(bo.X.Type(), types.Universe.Lookup("error").Type()) {
+				if failed < 0 {
 					continue
 				}
 				nChecks++
-				reach := reachableFrom(b.Succs[0])[markerInstr.Block()]
-				c.Check(!reach, rule, fnName(procSub), "no marker after a failed step: "+Expr(bo), P.Pos(posOf(ifi)), fmt.Sprintf("marker reachable from error edge: %v", reach))
+				mi := p.Index(failed, isMarkerInsert)
+				c.Check(mi < 0, rule, fnName(procSub), "no marker after a failed step", P.Pos(procSub.Pos()), "path: "+p.String())
 			}
 			c.Floor(rule+"/error-checks", nChecks, 1)
 		}
